@@ -753,3 +753,50 @@ Proof.
            destruct (ArrayMapper_paramlist O n rec kv flags k fs Hr En Eit) as (ps & Eps & Hps).
            rewrite Eps. cbn [bind]. close_branch Hps Ed.
 Qed.
+
+(* ------------------------------------------------------------------ the recursion *)
+
+Lemma comp_rec O n rec : rec_fields O n rec -> forall l fs,
+  mapO (field_of O n) l = Some fs ->
+  cg_comp (fun x => t <- rec x (PList []) ;; Ok (Some t)) (PList l)
+  = Ok (PList (map PStr (map (fun f => rt O (field_toks f)) fs))).
+Proof.
+  intros Hf. unfold cg_comp. cbn [cg_iter bind]. induction l as [|x l IH]; intros fs H.
+  - injection H as <-. reflexivity.
+  - cbn [mapO] in H. destruct (field_of O n x) as [f|] eqn:E; [|discriminate].
+    destruct (mapO (field_of O n) l) as [gs|]; [|discriminate]. injection H as <-.
+    specialize (IH gs eq_refl). cbn [filter_mapM]. rewrite (Hf x f E). cbn [bind].
+    destruct (filter_mapM _ l) as [rs|]; [|discriminate]. cbn [bind] in *. injection IH as ->. reflexivity.
+Qed.
+
+Lemma convert_body_list O n rec l fs :
+  rec_fields O n rec -> mapO (field_of O n) l = Some fs ->
+  convert_to_field_code_body O rec (PList l) (PList [])
+  = Ok (PStr (s2p "[" ++ join_strs comma (map (fun f => rt O (field_toks f)) fs) ++ s2p "]")%list).
+Proof.
+  intros Hf H. unfold convert_to_field_code_body. sx. rewrite (comp_rec O n rec Hf l fs H). sx.
+  rewrite join_map. sx. reflexivity.
+Qed.
+
+Theorem convert_spec O : forall n,
+  (forall m, (2 * n + 1 <= m)%nat -> rec_fields O n (convert_to_field_code O m))
+  /\ (forall m, (2 * n + 2 <= m)%nat -> rec_lists O n (convert_to_field_code O m)).
+Proof.
+  assert (Hlists : forall n m, rec_fields O n (convert_to_field_code O m) -> rec_lists O n (convert_to_field_code O (S m))).
+  { intros n m Hf l fs H. cbn [convert_to_field_code]. exact (convert_body_list O n _ l fs Hf H). }
+  induction n as [|n [IH1 IH2]].
+  - split.
+    + intros m _ sch f H. discriminate.
+    + intros m Hm. destruct m as [|m]; [lia|]. apply Hlists. intros sch f H. discriminate.
+  - assert (H1 : forall m, (2 * S n + 1 <= m)%nat -> rec_fields O (S n) (convert_to_field_code O m)).
+    { intros m Hm sch f H. destruct m as [|m]; [lia|]. cbn [field_of] in H. destruct sch; try discriminate.
+      cbn [convert_to_field_code]. apply (convert_body_ok O n); [|exact H].
+      split; [apply IH1; lia|]. split; [apply IH2; lia|]. destruct m as [|m]; [lia|]. reflexivity. }
+    split; [exact H1|]. intros m Hm. destruct m as [|m]; [lia|]. apply Hlists. apply H1. lia.
+Qed.
+
+(* convert_to_field_code emits exactly the text of the model's field_toks *)
+Theorem convert_to_field_code_bridge O n sch f :
+  field_of O n sch = Some f ->
+  convert_to_field_code O (2 * n + 1) sch (PList []) = Ok (PStr (rt O (field_toks f))).
+Proof. intro H. exact (proj1 (convert_spec O n) _ (le_n _) sch f H). Qed.
